@@ -119,6 +119,13 @@ Safe0(s, i) ==
 NoStrandedQuiescent ==
   Ev.op = "quiescent" => \A i \in g.accepted : Safe0(N, i)
 
+\* C03 bounded liveness: after recovery + a surviving runner ran until quiet
+EventuallyFinalOf(i) ==
+  /\ StOf(N, i) \in Final
+  /\ StOf(N, i) \in {"success", "failed"} =>
+       (Get(g.returned, i, {}) \cup Get(g.raised, i, {})) # {}
+EventuallyFinal == Ev.op = "settled" => \A i \in g.accepted : EventuallyFinalOf(i)
+
 \* C05
 SuccessHasResult ==
   \A i \in Invs(N) : StOf(N, i) = "success" =>
@@ -173,7 +180,10 @@ Checks ==
   /\ Check(tid, K, "ClaimsAlternate", ClaimsAlternate)
   /\ Check(tid, K, "OnlyOwnerMoves", OnlyOwnerMoves)
   /\ Check(tid, K, "NoParallelBody", NoParallelBody)
-  /\ Check(tid, K, "NoStrandedQuiescent", NoStrandedQuiescent)
+  /\ (Ev.op = "quiescent" =>
+        \A i \in g.accepted : CheckD(tid, K, "NoStrandedQuiescent", i, StOf(N, i), Safe0(N, i)))
+  /\ (Ev.op = "settled" =>
+        \A i \in g.accepted : CheckD(tid, K, "EventuallyFinal", i, StOf(N, i), EventuallyFinalOf(i)))
   /\ Check(tid, K, "SuccessHasResult", SuccessHasResult)
   /\ Check(tid, K, "FailedHasException", FailedHasException)
   /\ Check(tid, K, "NoValueBeforeFinal", NoValueBeforeFinal)
